@@ -233,6 +233,8 @@ def cases(tier):
             if sub_lattice(c) or (c["notional"] == 1.0 and c["df"] == 1.0 and c["spot"] == 0):
                 for opt in ({"seed": 7}, {"vr": 1}, {"nodensity": 1}, {"seed": 7, "vr": 1, "nodensity": 1}):
                     out.append(dict(c, sub="sweep", alphabet="A3", rep="identity", N=n, lo=0, hi=3 ** n, **opt))
+    out.extend(_pool_cases(thorough, confs, sub_lattice))
+    out.extend(_forms_cases(thorough))
     out.extend(_history_cases(thorough))
     for c in confs:
         if not thorough and not (sub_lattice(c) and c["payoff"] in ("s", "v2") and c["cv"] in ("none", "1a", "2a")):
@@ -242,8 +244,103 @@ def cases(tier):
     return out
 
 
+POOL_PROCS = (2, 3, 0)  # nb_of_processes of the pool branch; 0 stands for None = one worker per cpu (U.SIM_CPUS = 4)
+POOL_SCRIPT_NS = (8, 13, 17, 33)  # fixed scripts: multiples of 2 / 4 only, of none, beyond 4 x workers (chunks of 2 and 3 items)
+
+
+def _pool_cases(thorough, confs, sub_lattice):
+    """Sub 'pool': the multiprocessing branch of Engine.price (nb_of_processes 2, 3, None) closed by the simulated pool of
+    mc/c07_util.py; numbers of paths smaller than / not a multiple of / a multiple of the number of workers."""
+    out = []
+    corner = lambda c: sub_lattice(c) or (c["notional"] == 1.0 and c["df"] == 1.0 and c["spot"] == 0)  # noqa: E731
+    for n in (1, 2, 3):  # simplest first
+        for procs in POOL_PROCS:
+            for c in confs:
+                out.append(dict(c, sub="pool", procs=procs, alphabet="A3", rep="identity", N=n, lo=0, hi=3 ** n))
+    for procs in POOL_PROCS:
+        for c in confs:
+            if not thorough and not sub_lattice(c):
+                continue
+            if thorough:
+                out.append(dict(c, sub="pool", procs=procs, alphabet="A3", rep="identity", N=5, lo=0, hi=3 ** 5))
+            else:  # the 27 sequences of A3^5 starting with (0.5, 1.5)
+                out.append(dict(c, sub="pool", procs=procs, alphabet="A3", rep="identity", N=5, lo=54, hi=81))
+            for n in POOL_SCRIPT_NS:
+                out.append(dict(c, sub="pool", procs=procs, alphabet="A4", script=1, rep="identity", N=n, lo=0, hi=1))
+            for n in (1, 2, 3):
+                out.append(dict(c, sub="pool", procs=procs, alphabet="A3", rep="log", N=n, lo=0, hi=3 ** n))
+    # rarely used options and path-dependent payoffs in the pool branch
+    for n in (1, 2, 3):
+        for c in confs:
+            if corner(c) and (thorough or (c["payoff"] in ("s", "v2") and c["cv"] in ("none", "1a", "2a"))):
+                out.append(dict(c, sub="pool", procs=3, alphabet="A3", rep="identity", N=n, lo=0, hi=3 ** n, seed=7, vr=1, nodensity=1))
+    for n in (1, 2):
+        for payoff in U.BARRIER_KINDS:
+            for spot in (0, 1):
+                for procs in (POOL_PROCS if thorough else (2,)):
+                    out.append({"sub": "pool", "procs": procs, "payoff": payoff, "cv": "1a", "notional": 2.5, "df": 0.9, "spot": spot,
+                                "alphabet": "B9", "rep": "identity", "N": n, "lo": 0, "hi": 9 ** n})
+    # the REAL pathos pool (slow: two cases), on a constant script - the worker processes do not share the call counter
+    for procs, n in ((2, 5), (3, 2)):
+        out.append({"sub": "pool", "procs": procs, "realpool": 1, "payoff": "v2", "cv": "none", "notional": 2.5, "df": 0.9, "spot": 1,
+                    "alphabet": "A3", "constant": 2, "rep": "identity", "N": n, "lo": 0, "hi": 1})
+    return out
+
+
+def _forms_cases(thorough):
+    """Sub 'sweep' with `forms`: the same values handed over in another legal Python / numpy form (mc/c07_util.py lists them),
+    judged by the complete oracle; and two long scripts (257 and 1000 paths: accumulation) with one and with three processes."""
+    out = []
+
+    def add(payoff, cv, notional, forms, procs=1):
+        c = {"sub": "pool" if procs != 1 else "sweep", "payoff": payoff, "cv": cv, "notional": notional, "df": 0.9, "spot": 1,
+             "alphabet": "A3", "rep": "identity", "forms": list(forms)}
+        if procs != 1:
+            c["procs"] = procs
+        for n in (1, 2, 3):
+            out.append(dict(c, N=n, lo=0, hi=3 ** n))
+        out.append(dict(c, N=5, lo=0 if thorough else 54, hi=243 if thorough else 81))
+
+    for f in U.STRIKE_FORMS:
+        scalar, vector = ("si", "vi2") if "int" in f else ("s", "v2")
+        if f not in ("strike-tuple", "strike-array"):
+            for cv in ("none", "2a", "2r"):
+                add(scalar, cv, 2.5, [f])
+        if f != "strike-list1":
+            for cv in ("none", "2a"):
+                add(vector, cv, 2.5, [f])
+    for f, nt in (("notional-int", 2.0), ("notional-npfloat", 2.5)):
+        for payoff in ("s", "v2"):
+            for cv in ("none", "2a"):
+                add(payoff, cv, nt, [f])
+    for f, combos in (("prices-tuple", (("s", "2r"), ("v2", "2a"))), ("prices-lists", (("v2", "2a"), ("s", "2a"))),
+                      ("prices-2d", (("v2", "2a"), ("v2", "1a"), ("s", "2a"), ("v3", "2a"))), ("prices-array", (("s", "2r"), ("s", "1r"))),
+                      ("prices-npfloat", (("s", "2r"), ("s", "1r"))), ("products-tuple", (("v2", "2a"), ("s", "2r")))):
+        for payoff, cv in combos:
+            add(payoff, cv, 2.5, [f])
+    for f in U.CALL_FORMS:
+        for payoff, cv in (("v2", "2a"), ("s", "none")):
+            add(payoff, cv, 2.5, [f])
+    add("v2", "2a", 2.5, ["procs-npint"], procs=2)
+    for procs in (1, 3):
+        add("v2", "2a", 2.5, ["strike-array", "notional-npfloat", "prices-2d", "products-tuple", "paths-npint", "procs-npint", "price-keyword"], procs)
+        add("s", "2r", 2.5, ["strike-npfloat", "notional-npfloat", "prices-array", "paths-npint", "price-keyword"], procs)
+        add("vi2", "2a", 2.0, ["strike-intarray", "notional-int", "prices-lists", "prices-tuple"], procs)
+    # accumulation over many paths: fixed scripts of 257 and 1000 paths
+    for n in (257, 1000):
+        for cv in ("none", "2a"):
+            for procs in (1, 3):
+                c = {"sub": "pool" if procs != 1 else "sweep", "payoff": "v2", "cv": cv, "notional": 2.5, "df": 0.9, "spot": 1,
+                     "alphabet": "A4", "script": 1, "rep": "identity", "N": n, "lo": 0, "hi": 1}
+                out.append(dict(c, procs=procs) if procs != 1 else c)
+    return out
+
+
 HIST_NS = (1, 2, 3, 5)
 HIST_OPS = ("plain", "other", "deepcopy", "fork")
+# the history goes on with copy.copy(engine) / with a dill round trip of the engine / with the same engine and deep copies /
+# dill round trips of the product and of the ControlVariates object
+HIST_OPS_COPIES = ("copy", "dill", "deepcopy-objects", "dill-objects")
 
 
 def _history_cases(thorough):
@@ -271,6 +368,19 @@ def _history_cases(thorough):
                 for op in ops:
                     s5 = "all" if thorough and op == "plain" and rep == "identity" else "block"
                     out.append(case("paths", rep, (c, c), (op,), [(n1, n2) for n2 in HIST_NS], 3, s5))
+    for n1 in HIST_NS:
+        for c in (base if thorough else quick_base):
+            for op in HIST_OPS_COPIES:
+                out.append(case("paths", "identity", (c, c), (op,), [(n1, n2) for n2 in HIST_NS], 3 if thorough else 2, "block" if thorough else "none"))
+    # (a') the pool branch on ONE engine: re-priced with another number of paths, and nb_of_processes re-assigned between
+    #      the pricings (1 -> 2, 2 -> 1, 2 -> 3, 3 -> None, None -> 1)
+    pool_base = [c for c in (base if thorough else quick_base) if thorough or c["cv"] in ("none", "2a")]
+    chains = [((p, p), op) for p in POOL_PROCS for op in ("plain",)] + [((2, 2), "deepcopy"), ((3, 3), "dill"), ((0, 0), "fork"), ((2, 2), "other")]
+    chains += [(pq, "plain") for pq in ((1, 2), (2, 1), (2, 3), (3, 0), (0, 1))] + [((1, 3), "deepcopy"), ((1, 2), "dill")]
+    for n1 in HIST_NS:
+        for c in pool_base:
+            for (p1, p2), op in chains:
+                out.append(case("pool", "identity", (dict(c, procs=p1), dict(c, procs=p2)), (op,), [(n1, n2) for n2 in HIST_NS], 2, "none"))
     # (b) three pricings of the same configuration (grow then shrink, shrink then grow, ...)
     for n1, n2 in itertools.product(HIST_NS, repeat=2):
         for c in base:
@@ -322,21 +432,86 @@ def _cls_letters(letters):
     return "constant-sample" if k == 1 else f"{k}-letter-sample"
 
 
-def _price_and_observe(eng, product):
-    """One Engine.price call on the given engine object and everything that is read from its result."""
+def _pool_label(procs, n):
+    """Input class of a pricing in the pool branch: number of workers and how the number of paths relates to it."""
+    w = U.nb_workers(procs)
+    rel = "fewer-paths-than-workers" if n < w else ("paths-multiple-of-workers" if n % w == 0 else "paths-not-multiple-of-workers")
+    return f"pool-{procs or 'cpu-count'}-workers:{rel}"
+
+
+def _price_and_observe(eng, product, real_pool=False, keyword=False):
+    """One Engine.price call on the given engine object and everything that is read from its result. When the
+    configuration asks for more than one process the engine's module sees the simulated pool of mc/c07_util.py (unless
+    `real_pool`: the real pathos pool, whose worker processes do not report their calls to this process)."""
     obs = {"exc": None, "st": None}
-    try:
-        with np.errstate(all="ignore"), warnings.catch_warnings():
-            warnings.simplefilter("ignore")
-            st = eng.price(product)
-            obs["st"] = st
-            obs.update(_read_result(st))
-    except Exception as e:  # the library failing on an input of the alphabet is an observation, not a harness error
-        obs["exc"] = e
+    pooled = getattr(eng.configuration, "nb_of_processes", 1) != 1
+
+    cv0 = getattr(eng.configuration, "control_variates", None)
+    before = U.snapshot_inputs(product, cv0)
+
+    def go():
+        try:
+            with np.errstate(all="ignore"), warnings.catch_warnings():
+                warnings.simplefilter("ignore")
+                st = eng.price(product=product) if keyword else eng.price(product)
+                obs["st"] = st
+                obs.update(_read_result(st))
+        except Exception as e:  # the library failing on an input of the alphabet is an observation, not a harness error
+            obs["exc"] = e
+        # the caller's argument arrays (strikes, given prices) must read as before the pricing
+        obs["inputs_changed"] = U.changed_inputs(before, U.snapshot_inputs(product, cv0))
+
+    if pooled and not real_pool:
+        with U.pool_installed() as inst:
+            if inst.ok:
+                go()
+                obs["pool_log"] = list(U.SimPool.log)
+            else:
+                obs["uninstallable"] = True
+    else:
+        go()
     proc = eng.process
-    obs["calls"] = proc.calls
+    obs["calls"] = None if (pooled and real_pool) else proc.calls
     obs["log"] = list(proc.log)
     return obs
+
+
+def _pool_order(sh, case, letters, obs):
+    """Pool branch: which task index a worker's path is stored at is the pool's business (with the real pool the order of
+    the calls is not even determined), so the stored rows are matched with the paths handed out: row i must hold the payoff,
+    the controls and the spot of ONE path, every path used once. Returns the letters in the order of the stored rows (the
+    order of the calls when no such matching exists: the row sub-checks of check_run then report it)."""
+    n = len(letters)
+    Yl, Xl, Sl = obs.get("Y"), obs.get("X"), obs.get("spot")
+    if Yl is None or Yl.ndim != 2 or Yl.shape[0] != n:
+        return letters
+    S, Y, X = U.reference_rows(case, letters)
+    d = Yl.shape[1]
+    try:
+        Yr = np.array(Y, dtype=float).reshape(n, d)
+        Xr = np.array(X, dtype=float).reshape(n, -1) if (Xl is not None and len(X[0])) else None
+        Xs = Xl.reshape(n, -1) if Xr is not None else None
+        if Xr is not None and Xs.shape != Xr.shape:
+            return letters
+        Sr = np.array(S, dtype=float).reshape(n, 1) if (case["spot"] and Sl is not None and Sl.shape == (n, 1)) else None
+    except ValueError:
+        return letters
+
+    def same(a, b):
+        return bool(np.all(np.abs(a - b) <= 1e-12 * np.abs(b) + 1e-300))
+
+    used, perm = [False] * n, []
+    with np.errstate(all="ignore"):
+        for i in range(n):
+            for k in list(range(i, n)) + list(range(i)):  # the identity first
+                if not used[k] and same(Yl[i], Yr[k]) and (Xr is None or same(Xs[i], Xr[k])) and (Sr is None or same(Sl[i], Sr[k])):
+                    used[k] = True
+                    perm.append(k)
+                    break
+            else:
+                return letters
+    sh.count("pool_rows_in_task_order" if perm == list(range(n)) else "pool_rows_in_another_order")
+    return [letters[k] for k in perm]
 
 
 def _read_result(st):
@@ -357,8 +532,11 @@ def _read_result(st):
 def run_engine(case, letters, objects=None):
     """One complete run of the real engine (fresh engine, configuration and process; fresh product / controls unless
     `objects` are handed in). Returns a dict of observations (or the exception)."""
-    eng, proc, product = U.build_engine(case, letters, objects)
-    return _price_and_observe(eng, product)
+    try:
+        eng, proc, product = U.build_engine(case, letters, objects)
+    except Exception as e:  # noqa: BLE001 - a constructor of the library rejects an input of the alphabet: an observation
+        return {"exc": e, "stage": "construction", "st": None, "calls": 0, "log": []}
+    return _price_and_observe(eng, product, real_pool=bool(case.get("realpool")), keyword="price-keyword" in case.get("forms", ()))
 
 
 def _obs_fingerprint(obs):
@@ -385,8 +563,18 @@ def check_run(sh, case, letters, obs):
     nt, df = case["notional"], case["df"]
     spec = U.control_spec(cvk, d, case["payoff"])
     ncv = len(spec)
+    procs = case.get("procs", 1)
+    if obs.get("uninstallable"):
+        sh.cap("rpylib.montecarlo.standard.engine has no attribute `mp` to replace by the simulated pool: the pool branch is not judged")
+        return False
+    if procs != 1 and obs["exc"] is None:
+        letters = _pool_order(sh, case, letters, obs)
+        sh.cls(_pool_label(procs, n))
     S, Y, X = U.reference_rows(case, letters)
     detail0 = {"letters": list(letters), "config": {k: case[k] for k in ("payoff", "cv", "notional", "df", "spot", "rep", "alphabet")}}
+    if procs != 1:
+        detail0["config"]["nb_of_processes"] = procs or None
+        detail0["pool"] = obs.get("pool_log")
     sh.count("evaluations")
     sh.cls(f"N={n}")
     sh.cls(f"payoff:{case['payoff']}")
@@ -395,14 +583,21 @@ def check_run(sh, case, letters, obs):
 
     if obs["exc"] is not None:
         e = obs["exc"]
-        sh.violation(f"C07:engine:price-raises:{type(e).__name__}:{cvlab}:{dimk}",
-                     f"Engine.price raised {type(e).__name__}: {e} for N={n}, payoff {case['payoff']}, controls {cvk}",
-                     detail0)
+        stage = obs.get("stage", "price")
+        sh.violation(f"C07:engine:{stage}-raises:{type(e).__name__}:{cvlab}:{dimk}",
+                     f"{'Engine.price' if stage == 'price' else 'building product / controls / configuration / engine'} raised "
+                     f"{type(e).__name__}: {e} for N={n}, payoff {case['payoff']}, controls {cvk}", detail0)
         sh.outcome(("raises", type(e).__name__, cvk, dimk))
         return False
 
+    for name in obs.get("inputs_changed") or ():
+        sh.violation(f"C07:inputs:argument-array-modified-by-pricing:{name}{hlab}",
+                     f"the caller's {name} array(s) read differently after Engine.price than before", detail0)
+
     # ---- calls: each path simulated exactly once
-    if obs["calls"] != n:
+    if obs["calls"] is None:
+        sh.count("calls_unobservable_with_the_real_pool")
+    elif obs["calls"] != n:
         sh.violation(f"C07:calls:simulate_one_path:count-differs-from-configured-paths{hlab}",
                      f"{obs['calls']} paths were simulated for mc_paths={n}", detail0)
 
@@ -650,12 +845,19 @@ def check_run(sh, case, letters, obs):
 
 def _pricings(case):
     """The successive pricings of one sequence: list of per-pricing case dicts (representation + key labels)."""
+    if case["sub"] == "pool":
+        lab = _pool_label(case["procs"], case["N"]) + (":real-pool" if case.get("realpool") else "")
+        dim = f"dim1:{case['payoff']}" if case["payoff"] in U.BARRIER_KINDS else _dimk(U.payoff_dim(case["payoff"]))
+        opts = [k for k in ("seed", "vr", "nodensity") if case.get(k)] + list(case.get("forms", ()))
+        return [dict(case, dimlab=f"{dim}:{case['rep']}:{lab}" + (f":options-{'+'.join(opts)}" if opts else ""), hlab=f":{lab}")]
     if case["sub"] != "mixed":
         if case["payoff"] in U.BARRIER_KINDS:  # narrower input class in the keys of the path-dependent payoffs
             return [dict(case, dimlab=f"dim1:{case['payoff']}:{case['rep']}:spot-statistics-{'on' if case['spot'] else 'off'}")]
         opts = [k for k in ("seed", "vr", "nodensity") if case.get(k)]
         if opts:
             return [dict(case, dimlab=f"{_dimk(U.payoff_dim(case['payoff']))}:options-{'+'.join(opts)}")]
+        if case.get("forms"):
+            return [dict(case, dimlab=f"{_dimk(U.payoff_dim(case['payoff']))}:{case['payoff']}:forms-{'+'.join(case['forms'])}")]
         return [case]
     out = []
     reps = case["reps"]
@@ -678,7 +880,7 @@ def run_sequence(case, letters):
 # sub "history": ONE engine object priced several times
 # ----------------------------------------------------------------------------------------------------------------------
 
-HIST_FIELDS = ("payoff", "cv", "spot", "notional", "df")
+HIST_FIELDS = ("payoff", "cv", "spot", "notional", "df", "procs")
 
 
 def _result_fingerprint(r):
@@ -707,7 +909,7 @@ def _hist_label(prev, cur, op):
     if prev is None:
         return "first-pricing"
     rel = "fewer" if cur["N"] < prev["N"] else ("more" if cur["N"] > prev["N"] else "same-number-of")
-    chg = [f for f in HIST_FIELDS if cur[f] != prev[f]]
+    chg = [f for f in HIST_FIELDS if cur.get(f, 1) != prev.get(f, 1)]
     return f"re-pricing-with-{rel}-paths:{'changed-' + '+'.join(chg) if chg else 'same-configuration'}:after-{op}"
 
 
@@ -725,6 +927,8 @@ def run_history(case, ns, idx):
     def label_case(stp, pos):
         d = U.payoff_dim(stp["payoff"])
         opt = {"seed": 7, "vr": 1} if rep == "log" else {}  # the log histories also carry the rarely used options
+        if stp.get("procs", 1) != 1:  # the pool branch: number of workers and how the number of paths relates to it
+            pos = f"{pos}:{_pool_label(stp['procs'], stp['N'])}"
         return dict(stp, sub="history", rep=rep, alphabet="A3/A4-script", dimlab=f"{_dimk(d)}:history:{rep}:{pos}", hlab=f":history:{pos}", **opt)
 
     def after(sc, letters, obs):
@@ -765,8 +969,22 @@ def run_history(case, ns, idx):
                 after(side, side_letters, _price_and_observe(e2, prod2))
             elif op == "deepcopy":  # the history goes on with a deep copy of the engine
                 eng = copy.deepcopy(eng)
+            elif op == "copy":  # ... with a shallow copy (it shares configuration and process with the original)
+                eng = copy.copy(eng)
+            elif op == "dill":  # ... with a dill round trip of the engine (what is sent to another process)
+                import dill
+
+                eng = dill.loads(dill.dumps(eng))
+            elif op in ("deepcopy-objects", "dill-objects"):  # same engine; copies of the product and of the controls
+                import dill
+
+                dup = copy.deepcopy if op == "deepcopy-objects" else (lambda o: dill.loads(dill.dumps(o)))
+                product, cv = dup(product), dup(cv)
+                eng.configuration.control_variates = cv
             conf = eng.configuration
             conf.mc_paths = stp["N"]
+            if "procs" in stp:
+                conf.nb_of_processes = stp["procs"] or None
             conf.activate_spot_statistics = bool(stp["spot"])
             if U.HistoryObjects.controls_key(stp) != U.HistoryObjects.controls_key(prev):
                 conf.control_variates = cv
@@ -819,6 +1037,10 @@ def check_case(sh, case):
     for idx in range(case["lo"], case["hi"]):
         seq = U.decode(idx, n, len(letters_all))
         letters = [letters_all[k] for k in seq]
+        if case.get("script"):  # a fixed script instead of an enumerated sequence (larger numbers of paths)
+            letters = U.script_letters(0, n)
+        elif "constant" in case:  # the same path n times (the real pool: the workers cannot share the script's position)
+            letters = [letters_all[case["constant"]]] * n
         sh.case = dict(block, lo=idx, hi=idx + 1)  # a violation is recorded with its own sequence only (minimal replay)
         runs = run_sequence(case, letters)
         for c, obs in runs:
